@@ -34,7 +34,7 @@ def sh(cmd, cwd=None, timeout=3600, env=None, check=False):
 
 
 # ---------------------------------------------------------------------------------- Coq layers
-LAYER_DEPS = {"m1": [], "mig": [], "serde": ["m1"], "sql": ["m1"], "cli": ["m1"], "exp": ["m1"]}
+LAYER_DEPS = {"m1": [], "mig": [], "serde": ["m1"], "sql": ["m1"], "sqlite": ["m1"], "pg": ["m1"], "mysql": ["m1"], "cli": ["m1"], "exp": ["m1"]}
 
 
 def layer_dir(layer):
